@@ -180,17 +180,36 @@ func raceF9c(t *testing.T) (res raceResult) {
 		synctest.Wait()
 		close(c)
 		synctest.Wait()
+		blockedNow := 0
 		select {
 		case <-d2:
 		default:
+			blockedNow = 1
 			res.Failed = true
 			res.Detail = fmt.Sprintf("second waiter still blocked with %d/1 tokens held and %d backlog entries", st.GetBusyCount(), q.VerifBacklogLen())
+		}
+		// conservation and exactness must survive the race even though the wake-up is lost
+		if n := q.VerifBacklogLen(); n != blockedNow {
+			extraRace = append(extraRace, raceResult{"queue:backlog-not-exact:after-giveup-race", fmt.Sprintf("backlog reports %d entries, %d callers are blocked", n, blockedNow), true})
+		}
+		holders := 0
+		select {
+		case ok := <-d1:
+			if ok {
+				holders++
+			}
+		default:
+		}
+		if b := st.GetBusyCount(); b != holders {
+			extraRace = append(extraRace, raceResult{"queue:token-leak:handoff-to-departed-waiter", fmt.Sprintf("%d tokens held at the delegate, %d callers hold one: the hand-off to a waiter that had given up leaked its token", b, holders), true})
 		}
 		time.Sleep(30 * time.Second)
 		synctest.Wait()
 	})
 	return
 }
+
+var extraRace []raceResult
 
 // F11: two arrivals both pass the length check before either pushes: the backlog exceeds its bound.
 func raceF11(t *testing.T) raceResult {
@@ -212,14 +231,32 @@ func raceF11(t *testing.T) raceResult {
 	})
 }
 
+// only signatures starting with one of `only` are reported (empty = all)
+var raceOnly []string
+
 func runRaces(t *testing.T, rep *Report, races ...func(*testing.T) raceResult) {
+	keep := func(sig string) bool {
+		if len(raceOnly) == 0 {
+			return true
+		}
+		for _, p := range raceOnly {
+			if len(sig) >= len(p) && sig[:len(p)] == p {
+				return true
+			}
+		}
+		return false
+	}
+	defer func() { raceOnly = nil }()
 	for _, f := range races {
+		extraRace = nil
 		r := f(t)
-		rep.Evaluations++
-		rep.Distinct("race-replay", r.Sig)
-		if r.Failed {
-			rep.KnownStillFails(r.Sig, r.Detail, map[string]interface{}{"schedule": r.Sig})
-			rep.Violate(r.Sig, r.Detail, map[string]interface{}{"component": "race-window", "schedule": r.Sig})
+		for _, r := range append([]raceResult{r}, extraRace...) {
+			rep.Evaluations++
+			rep.Distinct("race-replay", r.Sig)
+			if r.Failed && keep(r.Sig) {
+				rep.KnownStillFails(r.Sig, r.Detail, map[string]interface{}{"schedule": r.Sig})
+				rep.Violate(r.Sig, r.Detail, map[string]interface{}{"component": "race-window", "schedule": r.Sig})
+			}
 		}
 	}
 }
@@ -232,10 +269,18 @@ func TestC10Races(t *testing.T) {
 func TestC12Races(t *testing.T) {
 	rep := NewReport("C12races")
 	defer rep.Write(t)
-	runRaces(t, rep, raceF9b, raceF11)
+	runRaces(t, rep, raceF9b, raceF11, raceF9c)
 }
 func TestC19Races(t *testing.T) {
 	rep := NewReport("C19races")
 	defer rep.Write(t)
 	runRaces(t, rep, raceF8, raceF9a)
+}
+
+func TestC02Races(t *testing.T) {
+	rep := NewReport("C02races")
+	defer rep.Write(t)
+	// conservation must survive the race windows (the lost wake-ups themselves belong to C10)
+	raceOnly = []string{"queue:token-leak", "queue:backlog-not-exact"}
+	runRaces(t, rep, raceF9c, raceF9b)
 }
